@@ -2,6 +2,7 @@ import PhyModel.Proofs.ASMC5
 import PhyModel.Proofs.Gibbs
 import PhyModel.Model.SMC
 import PhyModel.Proofs.PG4
+import PhyModel.Proofs.PG9
 import PhyModel.Proofs.PGExample
 /-! # C01 — one particle-Gibbs update of the whole tree leaves the posterior invariant
 
@@ -26,6 +27,11 @@ and the PhyClone instance is built on them:
   proposal probabilities of `Proposal.table`, the targets `pMarg·pdf` (`pOne·pdf` at the last level),
   `parent` = removal of the last-placed data point and the relative-ESS rule form an `ASMC.Spec` that
   satisfies `ASMC.ValidTo … σ.length`; so the conditional SMC sweep along σ leaves `pOne·pdf` invariant.
+
+* `reachable_iff_order`, `pg_invariant_abstract` — a well-formed complete tree is reached along σ
+  exactly when σ is one of its compatible orders; hence (C09: the order is uniform on the compatible
+  orders, `pdf = 1/count`) the kernel "draw σ given the tree, sweep along σ" leaves `pOne` invariant
+  on the complete trees of the data set.
 
 The executable model `SMC.pgStep` (which the correspondence check compares, transition row by
 transition row, with the exact kernel of the real `sample_tree`) is an instance of this abstract
@@ -101,6 +107,43 @@ example : (∀ k, PG.Hyp Props.C19.exData (PG.exCfg k) [1, 0]) ∧
     (PGSpec.level (PG.exCfg .semi) [1, 0] 1).length = 2 ∧
     (PGSpec.level (PG.exCfg .semi) [1, 0] 2).length = 6 := by
   refine ⟨PG.exHyp, ?_, ?_⟩ <;> decide +kernel
+
+/-- **reachable iff compatible.**  For an order `σ` of distinct data points and a well-formed tree `x`
+(`PG.WFT`: canonical form, no empty clone, distinct data indices below the sentinel of the canonical
+order, no outliers when outlier modelling is off): `x` is among the trees obtained by placing
+`σ[0], σ[1], …` one after the other (`PGSpec.level c σ σ.length`) **iff** `σ` is one of the orders
+`RootPermutationDistribution` can draw for `x` (`Orders.allOrders`, which C09 shows to be exactly
+the compatible orders). -/
+theorem reachable_iff_order (c : Proposal.Cfg) (σ : List ℕ) (hnd : σ.Nodup) (x : T) (w : PG.WFT c x) :
+    x ∈ PGSpec.level c σ σ.length ↔ σ ∈ Orders.allOrders x.f x.out :=
+  PG.reachable_iff_order c σ hnd x w
+
+/-- non-vacuity: the chain "0 above 1" is well formed; it is reached along `[1, 0]` and not along
+`[0, 1]` -/
+example : PG.WFT (PG.exCfg .semi) PG.exChain ∧ [1, 0].Nodup ∧
+    PG.exChain ∈ PGSpec.level (PG.exCfg .semi) [1, 0] 2 ∧
+    PG.exChain ∉ PGSpec.level (PG.exCfg .semi) [0, 1] 2 := by
+  refine ⟨PG.exChain_wft _, ?_, ?_, ?_⟩ <;> decide +kernel
+
+/-- **Stage 2: the order draw composed with the sweep leaves `pOne` invariant.**  For a data set
+with data indices `D` (distinct, positive likelihoods, `α > 0`, outlier proposal probability in
+`[0,1)`, any of the three proposals, kernel built with a permutation distribution — `PG.HypD`), any
+threshold, any number `m + 1` of particles and any `u > 0`: with
+`PG.piD x = pOne x` on the complete trees of the data set (`PGSpec.finals`, 0 elsewhere),
+`PG.uOrd x σ = 1 / countCode x` on the compatible orders of `x` (0 elsewhere) and
+`PG.pgKernel x y = ∑ σ, uOrd x σ · ASMC.kernel (PG.spec σ) u |σ| x y`, summing over all trees of the
+common finite state space `PGSpec.allStates c D`:  `∑ x, piD x · pgKernel x y = piD y`. -/
+theorem pg_invariant_abstract (dt : Data) (c : Proposal.Cfg) (D : List ℕ) (h : PG.HypD dt c D)
+    (θ : ℚ) (m : ℕ) (u : ℚ) (hu : 0 < u) (y : PG.St (PGSpec.allStates c D)) :
+    ∑ x : PG.St (PGSpec.allStates c D), PG.piD dt c D x.1 * PG.pgKernel dt c D θ m u x y
+      = PG.piD dt c D y.1 :=
+  PG.pg_invariant_abstract h θ m u hu y
+
+/-- non-vacuity: the two-point data set of the C19 example satisfies the hypotheses for every proposal
+kind; `finals` lists six complete trees for each of the two orders -/
+example : (∀ k, PG.HypD Props.C19.exData (PG.exCfg k) [0, 1]) ∧
+    (PGSpec.finals (PG.exCfg .semi) [0, 1]).length = 12 := by
+  refine ⟨PG.exHypD, ?_⟩; decide +kernel
 
 -- OBLIGATION-OPEN pg_invariant: identify `SMC.csmc` with `ASMC.kernel (PG.spec …)` and conclude `∑ x, pOne x * P(SMC.pgStep x = y) = pOne y`; until then the tie between the abstract theorem and `SMC.pgStep` is the exact row-by-row correspondence with the real code plus the exact `πK = π` oracle on every enumerated configuration.
 
